@@ -29,19 +29,25 @@ def run(ctx):
     if q:
         runs = [(2, 1200, 0, 3, 2), (4, 600, 2, 4, 2), (8, 300, 1, 3, 2), (4, 600, 0, 2, 2), (3, 600, 3, 8, 1),
                 # growth beyond the listed quantifier: forked PROCESSES on the process-shared cache (shared sequence counter)
-                (4, 400, 2, 4, 2, "proc"), (3, 400, 0, 2, 2, "proc")]
+                (4, 400, 2, 4, 2, "proc"), (3, 400, 0, 2, 2, "proc"),
+                # all keys in ONE hash bucket (equal hash values): readers walk / touch the same chain
+                (6, 1500, 0, 5, 2, "collide"), (4, 800, 3, 5, 2, "collide")]
     else:
         runs = [(t, n, lim, names, 3) for t in (2, 3, 4, 8) for (n, lim, names) in ((4000, 0, 3), (3000, 2, 4), (3000, 1, 2), (3000, 4, 8))]
         runs += [(t, 1500, lim, names, 3, "proc") for t in (2, 4, 8) for (lim, names) in ((0, 3), (2, 4), (1, 2))]
+        runs += [(t, 4000, lim, 5, 3, "collide") for t in (2, 4, 8) for lim in (0, 3, 64)]
     n = 0
     for spec in runs:
         n += 1
         raw = os.path.join(ctx.work, "c09-%d.raw" % n)
         srt = os.path.join(ctx.work, "c09-%d.ndjson" % n)
-        rc, out, err = ctx.run_harness(exe, spec, trace=raw, timeout=600)
+        henv = {"VERIF_COLLIDE": "1"} if spec[-1] == "collide" else None
+        if henv:
+            spec = spec[:-1]
+        rc, out, err = ctx.run_harness(exe, spec, trace=raw, timeout=600, env=henv)
         if rc != 0:
             # a crash of the cache under concurrent use is a violation candidate only if it repeats
-            rc2, out2, err2 = ctx.run_harness(exe, spec, trace=raw, timeout=600)
+            rc2, out2, err2 = ctx.run_harness(exe, spec, trace=raw, timeout=600, env=henv)
             if rc2 != 0:
                 rp = os.path.join(ctx.replays, "crash-%d.txt" % n)
                 open(rp, "w").write("conc_drv %s\nrc=%s\n%s" % (spec, rc2, err2[-3000:]))
